@@ -185,6 +185,25 @@ func buildOverlay(dirs []string, scratch string) (map[string][]byte, map[string]
 			ov[v] = b
 			files[v] = m
 		}
+		if d == "filterlist" {
+			// the one constructor of file-backed lists used by the harnesses (same text as mkoverlay.py writes):
+			// it sets the unexported read buffer when the type still has one
+			src, _ := os.ReadFile(filepath.Join(repoDir, info[0], "rulelist.go"))
+			note, field := "", ", buffer: make([]byte, bufLen)"
+			if !strings.Contains(string(src), "\tbuffer []byte") {
+				note, field = " (this tree has no buffer field: bufLen is ignored)", ""
+			}
+			gen := "// Code generated by the verification driver.\npackage filterlist\n\nimport \"os\"\n\n" +
+				"// verifNewFileList: a file-backed list over f with a read buffer of bufLen bytes" + note + ".\n" +
+				"func verifNewFileList(id int, f *os.File, bufLen int) *FileRuleList {\n\treturn &FileRuleList{ID: id, File: f" + field + "}\n}\n"
+			v := filepath.Join(repoDir, info[0], "zz_verif_gen.go")
+			real := filepath.Join(scratch, "filterlist_zz_verif_gen.go")
+			if err := os.WriteFile(real, []byte(gen), 0o644); err != nil {
+				return nil, nil, err
+			}
+			ov[v] = []byte(gen)
+			files[v] = real
+		}
 	}
 	return ov, files, nil
 }
